@@ -62,13 +62,13 @@ def split_params(s):
 
 def parse_text(txt, fname, model, problems):
     # library interfaces
-    for m in re.finditer(r"interface (\w+)\s*:\s*Library\s*\{(.*?)\n\}", txt, flags=re.S):
+    for m in re.finditer(r"interface\s+(\w+)\s*:\s*Library\s*\{(.*?)\n\}", txt, flags=re.S):
         iname, body = m.group(1), m.group(2)
         for line in body.split("\n"):
             s = line.strip()
             if not s or s.startswith("//"):
                 continue
-            fm = re.fullmatch(r"fun (\w+)\((.*)\)\s*(?::\s*([\w?]+))?\s*", s)
+            fm = re.fullmatch(r"fun\s+(\w+)\s*\((.*)\)\s*(?::\s*([\w?]+))?\s*;?", s)
             if not fm:
                 problems.append("%s: unrecognised line in interface %s: %r" % (fname, iname, s))
                 continue
@@ -85,7 +85,7 @@ def parse_text(txt, fname, model, problems):
             model.functions[sym] = {"ret": conv(ret, problems, sym + " return"), "params": params, "file": fname,
                                     "line": txt[:m.start()].count("\n") + 1}
     # structures and unions
-    for m in re.finditer(r"class (\w+)\s*:\s*(Structure\(\), Structure\.ByValue|Union\(\))\s*\{", txt):
+    for m in re.finditer(r"class\s+(\w+)\s*:\s*(Structure\(\)\s*,\s*Structure\.ByValue|Union\(\))\s*\{", txt):
         cname, base = m.group(1), m.group(2)
         # body = up to the matching brace
         i, depth = m.end(), 1
@@ -113,6 +113,7 @@ def parse_text(txt, fname, model, problems):
             d += l.count("{") - l.count("}")
             k += 1
         kind = "union" if base.startswith("Union") else "struct"
+        base = re.sub(r"\s+", " ", base)
         members = [(n, t, False) for n, t in fields]
         if kind == "struct":
             om = re.search(r"getFieldOrder\(\)\s*:\s*List<String>\s*\{\s*return listOf\((.*?)\)", body, flags=re.S)
